@@ -159,11 +159,35 @@ def clause_lines(lines, key, kind, meta, indent="        "):
 
 
 def weave_fn(it, ctx, meta, modpath, in_trait_decl=False):
+    """weaves the overlay into one function; when an anchor of the overlay is lost (the function's shape changed), the
+    function is emitted as #[verifier::external_body] with its contract only and reported in meta["lost_fns"]:
+    it is then *unproved* (never an alarm by itself), callers still see its contract."""
+    try:
+        return _weave_fn(it, ctx, meta, modpath, in_trait_decl, degrade=False)
+    except GenError as e:
+        if "lost anchor" not in str(e) or it.body is None:
+            raise
+        meta.setdefault("lost_fns", {})[it.key] = str(e)
+        # forget labels registered by the failed attempt
+        for l in [l for l, v in meta["labels"].items() if v["fn"] == it.key and v["kind"] not in ("requires", "ensures", "decreases")]:
+            del meta["labels"][l]
+        if ctx.fn_inventory and ctx.fn_inventory[-1] == it.key:
+            ctx.fn_inventory.pop()
+        return _weave_fn(it, ctx, meta, modpath, in_trait_decl, degrade=True)
+
+
+def _weave_fn(it, ctx, meta, modpath, in_trait_decl=False, degrade=False):
     key = it.key
     ctx.fn_inventory.append(key)
     ent = ctx.ov.fns.get(key)
     if ent:
         ent.used = True
+    if degrade and ent:
+        import copy as _copy
+        ent = _copy.copy(ent)
+        ent.loops, ent.inserts, ent.prefix, ent.closures, ent.rewrites = {}, [], [], {}, []
+        ent.attrs = [a for a in ent.attrs if "external" not in a and "spinoff" not in a and "rlimit" not in a] + ["#[verifier::external_body]"]
+        ent.raw = True
     has_body = it.body is not None
     header = list(it.header if has_body else it.toks)
     body = list(it.body) if has_body else None
